@@ -243,6 +243,13 @@ func runSDisp(ops []string, emit func(string)) {
 			emit("TIMING")
 			continue
 		}
+		if f[0] == "wait" && doubleTimeout(out) {
+			// two expiries on one connection within one `wait`: the harness overslept (the second request was written
+			// when the first expired); the quiescent model fires each armed timer once per wait
+			tainted = true
+			emit("TIMING")
+			continue
+		}
 		if f[0] != "wait" && strings.Contains(out, ":timeout") {
 			tainted = true
 			emit("TIMING")
